@@ -17,6 +17,10 @@ pub enum Step {
     Register(u8, u8),
     Read(u8),
     Reopen,
+    /// remove the document (it then counts as unknown: registrations must fail, the list is gone)
+    Remove(u8),
+    /// import the document again (empty list)
+    Recreate(u8),
 }
 
 #[derive(Serialize, Deserialize, Clone, Debug)]
@@ -39,7 +43,7 @@ impl Prop for C17 {
 
     fn rule() -> String {
         "sequences of <= 60 (thorough 200) peer registrations over 1..=9 peers and 1..=3 documents plus a missing one, interleaved with \
-         reads and reopen (file stores), compared after every step with a move-to-front list truncated to five; non-trivial = >= 7 \
+         reads, reopen (file stores), removal and re-creation of documents (a removed document counts as unknown), compared after every step with a move-to-front list truncated to five; non-trivial = >= 7 \
          registrations over >= 6 distinct peers on one document with a re-registration of a peer that is not the oldest; distinct by \
          serialised case"
             .into()
@@ -52,9 +56,11 @@ impl Prop for C17 {
     fn strategy(tier: Tier) -> BoxedStrategy<Case> {
         let max = tier.pick(60, 200);
         let step = prop_oneof![
-            10 => (0u8..4, 0u8..9).prop_map(|(d, p)| Step::Register(d, p)),
-            2 => (0u8..4).prop_map(Step::Read),
-            1 => Just(Step::Reopen),
+            30 => (0u8..4, 0u8..9).prop_map(|(d, p)| Step::Register(d, p)),
+            6 => (0u8..4).prop_map(Step::Read),
+            3 => Just(Step::Reopen),
+            1 => (0u8..3).prop_map(Step::Remove),
+            1 => (0u8..3).prop_map(Step::Recreate),
         ];
         (prop::bool::weighted(0.3), 1u8..=3, vec(step, 1..=max))
             .prop_map(|(file, docs, steps)| Case { file, docs, steps })
@@ -72,6 +78,7 @@ impl Prop for C17 {
             }
             let missing = namespace(5).id();
             let mut model: Vec<Vec<[u8; 32]>> = vec![vec![]; c.docs as usize];
+            let mut exists = vec![true; c.docs as usize];
             let mut regs: Vec<(usize, std::collections::BTreeSet<u8>, bool)> = vec![(0, Default::default(), false); c.docs as usize];
             for (i, s) in c.steps.iter().enumerate() {
                 match s {
@@ -88,6 +95,12 @@ impl Prop for C17 {
                                 break;
                             }
                             o.class("register-on-missing");
+                        } else if !exists[d] {
+                            if st.store.register_useful_peer(docs[d], peer(*p)).is_ok() {
+                                o.fail("C17/register-on-missing-doc", format!("step {i}: registering a peer for a removed document succeeded"));
+                                break;
+                            }
+                            o.class("register-on-removed");
                         } else {
                             es(st.store.register_useful_peer(docs[d], peer(*p)))?;
                             let m = &mut model[d];
@@ -105,6 +118,21 @@ impl Prop for C17 {
                         }
                     }
                     Step::Read(_) => {}
+                    Step::Remove(d) => {
+                        let d = *d as usize % docs.len();
+                        es(st.store.remove_replica(&docs[d]))?;
+                        exists[d] = false;
+                        model[d].clear();
+                        o.class("removed");
+                    }
+                    Step::Recreate(d) => {
+                        let d = *d as usize % docs.len();
+                        if !exists[d] {
+                            es(st.store.import_namespace(namespace(d as u8).clone().into()))?;
+                            exists[d] = true;
+                            o.class("recreated");
+                        }
+                    }
                     Step::Reopen => {
                         st = st.reopen()?;
                         o.class("reopen");
